@@ -256,6 +256,81 @@ def check_obligations(pid, tier):
 	return info
 
 
+# ---------------------------------------------------------------- watchdog for calls into the code under check
+class TimedOut(Exception):
+	"""The code under check did not return within the allotted time (a changed loop bound, a grid far larger than documented...)."""
+
+
+class time_limit:
+	"""with time_limit(30): real_code(...)  -- raises TimedOut in the calling thread if the block runs longer (SIGALRM based)."""
+	def __init__(self, seconds):
+		self.seconds = seconds
+	def __enter__(self):
+		import signal, time
+		def on_alarm(signum, frame):
+			raise TimedOut('no result within %d s' % self.seconds)
+		self.t0 = time.time()
+		self.outer = signal.getitimer(signal.ITIMER_REAL)[0]          # an enclosing, possibly shorter, limit keeps its deadline
+		self.old = signal.signal(signal.SIGALRM, on_alarm)
+		signal.setitimer(signal.ITIMER_REAL, min(self.seconds, self.outer) if self.outer > 0 else self.seconds)
+		return self
+	def __exit__(self, *exc):
+		import signal, time
+		signal.setitimer(signal.ITIMER_REAL, 0)
+		signal.signal(signal.SIGALRM, self.old)
+		if self.outer > 0:
+			signal.setitimer(signal.ITIMER_REAL, max(0.01, self.outer - (time.time() - self.t0)))
+		return False
+
+
+def guard(fn, *args, _limit=30, **kw):
+	with time_limit(_limit):
+		return fn(*args, **kw)
+
+
+_wd_depth = [0]
+
+
+def install_watchdog(default=60, slow=180):
+	"""Wrap every public function of the library modules (as seen from the harness) in a time limit, outermost call only.
+	A call that does not return raises TimedOut, which the streams report like any other exception of the code under check."""
+	import importlib, inspect, functools
+	mods = ['eoq', 'newsvendor', 'rq', 'ss', 'wagner_whitin', 'finite_horizon', 'supply_uncertainty', 'ssm_serial', 'gsm_serial', 'gsm_tree',
+			'gsm_helpers', 'meio_general', 'loss_functions', 'helpers', 'sim', 'sim_io', 'instances', 'optimization']
+	slow_names = {'simulation', 'run_multiple_trials', 'meio_by_enumeration', 'meio_by_coordinate_descent', 'optimize_base_stock_levels', 'expected_cost',
+				  'finite_horizon_dp', 'optimize_committed_service_times'}
+	for m in mods:
+		try:
+			mod = importlib.import_module('stockpyl.' + m)
+		except Exception:
+			continue
+		for name, fn in list(vars(mod).items()):
+			if name.startswith('_') or not inspect.isfunction(fn) or fn.__module__ != mod.__name__:
+				continue
+			def make(fn, lim):
+				@functools.wraps(fn)
+				def wrapped(*a, **k):
+					if _wd_depth[0] > 0:
+						return fn(*a, **k)
+					_wd_depth[0] += 1
+					try:
+						with time_limit(lim):
+							return fn(*a, **k)
+					finally:
+						_wd_depth[0] -= 1
+				return wrapped
+			setattr(mod, name, make(fn, slow if name in slow_names else default))
+
+
+def limit_memory(gb=24):
+	"""A changed grid or loop bound can make the code under check allocate without end: fail with MemoryError instead of taking the machine down."""
+	try:
+		import resource
+		resource.setrlimit(resource.RLIMIT_AS, (gb << 30, gb << 30))
+	except Exception:
+		pass
+
+
 # ---------------------------------------------------------------- findings
 def load_known():
 	path = os.path.join(VERIF, 'known_findings.json')
